@@ -59,18 +59,54 @@ function droppedProtoName(data, input, depth = 0) {
 }
 
 // somewhere the input has a Date / Map / typed array / class instance where the data has a rebuilt plain object
-// (`declared`: constructor kinds the type itself declares - a Set that comes back as {} under a
-// declared Set<..> is not this finding)
-function exoticRebuilt(data, input, declared, depth = 0) {
+// Position-aware: the tag applies where the input carries a Date / Map / Set / typed array / class
+// instance at a position whose DECLARED type is an object type (the data is then a rebuilt plain
+// object); a Set that comes back as {} under a declared Set<..> is a different matter.
+function typesAdmit(env, ts, kind, depth = 0) {
+  if (depth > 30) return true;
+  for (const t of ts) {
+    let r;
+    try {
+      r = env.resolve(t);
+    } catch {
+      return true;
+    }
+    if (r.c === "any" || r.c === kind) return true;
+    if ((r.c === "union" || r.c === "inter") && typesAdmit(env, r.ts, kind, depth + 1)) return true;
+  }
+  return false;
+}
+function childTypes(env, ts, key, isIndex, depth = 0) {
+  const out = [];
+  if (depth > 30) return out;
+  for (const t of ts) {
+    let r;
+    try {
+      r = env.resolve(t);
+    } catch {
+      continue;
+    }
+    if (r.c === "union" || r.c === "inter") out.push(...childTypes(env, r.ts, key, isIndex, depth + 1));
+    else if (isIndex && r.c === "arr") out.push(r.el);
+    else if (isIndex && r.c === "tuple") out.push(key < r.items.length ? r.items[key] : r.rest);
+    else if (!isIndex && r.c === "obj") {
+      const p = r.props.find((q) => q.name === key);
+      if (p) out.push(p.t);
+      else if (r.index) out.push(r.index.val);
+    }
+  }
+  return out.filter(Boolean);
+}
+function exoticRebuilt(data, input, env, types, depth = 0) {
   if (depth > 50 || data === input || data === null || input === null || typeof data !== "object" || typeof input !== "object") return false;
-  if (Array.isArray(input)) return Array.isArray(data) && data.some((x, i) => exoticRebuilt(x, input[i], declared, depth + 1));
+  if (Array.isArray(input)) return Array.isArray(data) && data.some((x, i) => exoticRebuilt(x, input[i], env, env && types ? childTypes(env, types, i, true) : null, depth + 1));
   if (![Object.prototype, null].includes(Object.getPrototypeOf(input))) {
     const kind = input instanceof Map ? "map" : input instanceof Set ? "set" : input instanceof Date ? "date" : ArrayBuffer.isView(input) ? "typed" : "other";
-    if (declared && declared.has(kind)) return false;
+    if (env && types && kind !== "other" && typesAdmit(env, types, kind)) return false;
     return Object.getPrototypeOf(data) === Object.prototype;
   }
   if (Array.isArray(data)) return false;
-  return Object.keys(data).some((k) => Object.prototype.hasOwnProperty.call(input, k) && exoticRebuilt(data[k], input[k], declared, depth + 1));
+  return Object.keys(data).some((k) => Object.prototype.hasOwnProperty.call(input, k) && exoticRebuilt(data[k], input[k], env, env && types ? childTypes(env, types, k, false) : null, depth + 1));
 }
 function nullProtoCopy(v, depth = 0) {
   if (v === null || typeof v !== "object" || depth > 200) return v;
@@ -105,8 +141,7 @@ export function checkTriple(parser, name, v, o, core, ref) {
     return null;
   }
   const data = sp.v.data;
-  const declared = core && ref ? coreKinds(ref.env, core) : null;
-  const tag = droppedProtoName(data, v) ? ":protoname-key-dropped" : exoticRebuilt(data, v, declared) ? ":exotic-object-under-object-type" : "";
+  const tag = droppedProtoName(data, v) ? ":protoname-key-dropped" : exoticRebuilt(data, v, core && ref ? ref.env : null, core ? [core] : null) ? ":exotic-object-under-object-type" : "";
   if (!deepEqual(data, pr.v, true)) return { clause: "safeParse-vs-parse-data" + tag, detail: `${show(data)} vs ${show(pr.v)}` };
   const v2 = call(() => parser.validate(data, o));
   if ((!v2.ok || v2.v !== true) && call(() => parser.validate(nullProtoCopy(data), o)).v === true)
@@ -114,7 +149,8 @@ export function checkTriple(parser, name, v, o, core, ref) {
   if (!v2.ok || v2.v !== true) return { clause: "data-not-accepted" + tag, detail: `validate(data)=${v2.ok ? v2.v : "threw " + String(v2.e && v2.e.message).slice(0, 80)} data=${show(data)}` };
   const p2 = call(() => parser.parse(data, o));
   if (!p2.ok) return { clause: "reparse-threw", detail: String(p2.e && p2.e.message).slice(0, 120) };
-  if (!deepEqual(p2.v, data, true)) return { clause: "reparse-differs" + tag, detail: `${show(data)} -> ${show(p2.v)}` };
+  // ("parsing it again returns an equal value": key order is not part of the value)
+  if (!deepEqual(p2.v, data, false)) return { clause: "reparse-differs" + tag, detail: `${show(data)} -> ${show(p2.v)}` };
   const pf = projectionFault(data, v);
   if (pf) return { clause: "not-a-projection", detail: pf + ` data=${show(data)}` };
   if (core && ref) {
